@@ -96,3 +96,49 @@ def replay_auth(inp):
         finally:
             a.close(); b.close()
     return {"violates": bool(bad), "detail": bad}
+
+
+def publickey_without_proof(inp):
+    """an application that accepts the key for the user; signed requests whose signature is not a valid proof (wrong signer,
+    malformed inner encodings, trailing bytes after the two ECDSA integers, empty): none may be granted"""
+    from paramiko import ECDSAKey, RSAKey
+    from paramiko.ssh_exception import SSHException
+
+    class Accepts(Refuser):
+        def check_auth_publickey(self, username, key):
+            return AUTH_SUCCESSFUL
+
+    bad = []
+    keys = [ECDSAKey.generate(), RSAKey.generate(1024)]
+    other = ECDSAKey.generate()
+    for k in keys:
+        alg = k.get_name() if not isinstance(k, RSAKey) else "rsa-sha2-256"
+
+        def inner(r, s, tail=b""):
+            im = Message()
+            im.add_mpint(r); im.add_mpint(s)
+            return im.asbytes() + tail
+        sigs = {"empty signature": Message().asbytes()}
+        if not isinstance(k, RSAKey):
+            for label, body in (("r = s = 0 plus one byte", inner(0, 0, b"\x00")), ("three integers", inner(1, 1) + inner(1, 1)[:5]),
+                                ("r = s = 1", inner(1, 1))):
+                sm = Message()
+                sm.add_string(alg); sm.add_string(body)
+                sigs[label] = sm.asbytes()
+        for label, sig in sigs.items():
+            t, a, b = server()
+            t.server_object = Accepts()
+            try:
+                h = t.auth_handler
+                m = Message()
+                m.add_string("alice"); m.add_string("ssh-connection"); m.add_string("publickey"); m.add_boolean(True)
+                m.add_string(alg); m.add_string(k.asbytes()); m.add_string(sig)
+                try:
+                    h._parse_userauth_request(Message(m.asbytes()))
+                except Exception:
+                    pass
+                if granted(t):
+                    bad.append({"key": alg, "signature": label, "why": "authenticated without a valid signature"})
+            finally:
+                a.close(); b.close()
+    return {"violates": bool(bad), "detail": bad[:4]}
